@@ -32,6 +32,19 @@ pub fn divisor(r: &mut Rng, dl: usize, topbits: usize) -> Vec<u64> {
         }
     };
     v[dl - 1] = top;
+    // normalised divisors whose leading limbs are (nearly) all ones: the estimate from the top two
+    // limbs is as far off as it can be, which is where a skipped or wrong correction shows
+    if topbits == 64 && r.chance(1, 3) {
+        v[dl - 1] = u64::MAX;
+        if dl >= 2 {
+            v[dl - 2] = match r.below(4) {
+                0 => u64::MAX,
+                1 => u64::MAX - 1,
+                2 => gen::alpha_limb(r) | (1 << 63),
+                _ => gen::alpha_limb(r),
+            };
+        }
+    }
     v
 }
 
